@@ -271,7 +271,6 @@ func runC04(c *Ctx) {
 	c.Rule("R04.12", "E5", "the controller-facing read-modify-write operations (Modify, Teardown, AddFinalizer, RemoveFinalizer …) read what they decide on from the live state, never from the lagging read cache: success means the mutation was applied to the then-current value", 10)
 	liveStateRules(c, "R04.12")
 
-
 	// ---------- R04.13 (shared with C08 R08.8)
 	c.Rule("R04.13", "E1", "controller-facing RMW operations report success only after the owned state's operation ran: there is no fast path that answers for the state", 8)
 	delegateBeforeSuccess(c, "R04.13")
